@@ -73,7 +73,7 @@ def grid():
 def probe_line(cid, src):
     X = x(src)
     return (f'{cid} cmp {X} ; regs {x("keep")} {x("K")} ; keys ; regs {x("n")} {X} ; keys ; regp {x("pp")} {X} ; '
-            f'rt 4 {X} {jtok({"a": [1], "b": True, "x": "v"})} -1 ; keys')
+            f'rt 4 {X} {jtok({"a": [1], "b": True, "x": "v"})} -1 ; keys ; tok handlebars {X}')
 
 def gen_cases(rng, tier, scale):
     cases = []
@@ -107,9 +107,16 @@ def oracle(c, io, mo):
     toks = io.split(' ')
     src = c['src']
     nlines = src.count('\n') + 1
-    if len(toks) != 8:
+    if len(toks) != 9:
         return f'unexpected observation count {len(toks)}'
-    cmp_, k0, keys0, regs, keys1, regp, rt, keys2 = toks
+    cmp_, k0, keys0, regs, keys1, regp, rt, keys2, tk = toks
+    if tk.startswith('tok:'):
+        n = len(src)
+        for t in tk[4:].split(','):
+            if t:
+                _, a, b = t.rsplit(':', 2)
+                if not (0 <= int(a) <= int(b) <= n):
+                    return f'token span {t} lies outside the source'
     for t in (cmp_, regs, regp, rt):
         if t == 'PANIC' or 'PANIC' in t:
             return 'compile panicked'
